@@ -54,11 +54,18 @@ func seqString(ops []Op) string {
 	return sb.String()
 }
 
-func val(v int) *ds.VMValue { return ds.NewIntVal(ds.IntType(v)) }
+// val: the value 0 stands for a nil *VMValue, which an ordinary map[string]*VMValue holds like any other value (the
+// repository's own TestValueMap stores one); every other number is an int value.
+func val(v int) *ds.VMValue {
+	if v == 0 {
+		return nil
+	}
+	return ds.NewIntVal(ds.IntType(v))
+}
 
 func intOf(v *ds.VMValue) (int, bool) {
 	if v == nil {
-		return 0, false
+		return 0, true
 	}
 	i, ok := v.ReadInt()
 	return int(i), ok
@@ -767,6 +774,9 @@ func genOp(t *rapid.T, keys []string, withBulk bool) Op {
 	case "Store", "LoadOrStore":
 		o.K = rapid.SampledFrom(keys).Draw(t, "k")
 		o.V = rapid.IntRange(1, 4).Draw(t, "v")
+		if !withBulk && rapid.IntRange(0, 7).Draw(t, "nilValue") == 0 {
+			o.V = 0 // a nil pointer as the stored value (not through JSON, which has no form for it)
+		}
 	case "Load", "LoadAndDelete", "Delete":
 		o.K = rapid.SampledFrom(keys).Draw(t, "k")
 	}
@@ -811,7 +821,7 @@ func TestProp(t *testing.T) {
 	}
 
 	run.Check("seq", 40000, 1500000,
-		"random sequences of 1..200 operations (incl. early-terminated Range and a ToJSON/UnmarshalJSON round trip as bulk op) over 6 keys x 4 values against a Go map; non-trivial = delete-type op after a possible promotion; distinct by sequence",
+		"random sequences of 1..200 operations (incl. early-terminated Range and a ToJSON/UnmarshalJSON round trip as bulk op) over 6 keys x 4 values (one sequence in four without the bulk op and with nil pointers among the stored values) against a Go map; non-trivial = delete-type op after a possible promotion; distinct by sequence",
 		func(t *rapid.T, s *rt.Section) {
 			n := rapid.IntRange(1, 200).Draw(t, "n")
 			if rapid.Bool().Draw(t, "short") {
@@ -819,8 +829,16 @@ func TestProp(t *testing.T) {
 			}
 			nk := rapid.IntRange(1, len(seqKeys)).Draw(t, "nkeys")
 			c := Case{}
+			// one sequence in four has no JSON round trip and may store nil pointers as values
+			withBulk := rapid.IntRange(0, 3).Draw(t, "withBulk") != 0
 			for i := 0; i < n; i++ {
-				c.Ops = append(c.Ops, genOp(t, seqKeys[:nk], true))
+				c.Ops = append(c.Ops, genOp(t, seqKeys[:nk], withBulk))
+			}
+			for _, o := range c.Ops {
+				if (o.Op == "Store" || o.Op == "LoadOrStore") && o.V == 0 {
+					s.Class("stores-a-nil-pointer")
+					break
+				}
 			}
 			s.Eval()
 			str := seqString(c.Ops)
